@@ -34,7 +34,9 @@ Fixpoint offsets (d : doc) (l : list span) (off : nat) : list ospan :=
        o_ins := match m with Some (KIns, mk) => Some (m_id mk) | _ => None end;
        o_del := match m with Some (KDel, mk) => Some (m_id mk) | _ => None end |} :: offsets d r (off + length (sp_text s))
   end.
-Definition build_map (clean : bool) (d : doc) : list ospan := offsets d (doc_spans_u clean d) 0.
+(* cm: the comments the mapper extracted when it was constructed (DocumentMapper.comments_map is never refreshed) *)
+Definition with_comments (d : doc) (cm : list comment) : doc := {| d_stories := d_stories d; d_comments := cm; d_next_uid := d_next_uid d |}.
+Definition build_map (clean : bool) (cm : list comment) (d : doc) : list ospan := offsets d (doc_spans_u clean (with_comments d cm)) 0.
 Definition map_text (sp : list ospan) : str := flat_map o_text sp.
 Definition sub (s : str) (a len : nat) : str := firstn len (skipn a s).
 
@@ -188,11 +190,12 @@ Definition inline_text (s : str) : bool := negb (existsb (fun c => N.eqb c 10%N 
 End Inline.
 
 (* _apply_run_props *)
+(* set the value of the first rPr token with this tag *)
+Fixpoint set_first (tag v : N) (l : list (N * N)) (done : bool) : list (N * N) :=
+  match l with [] => [] | (t, v0) :: r => if N.eqb t tag && negb done then (t, v) :: set_first tag v r true else (t, v0) :: set_first tag v r done end.
 Definition set_prop (tag : N) (on suppress : bool) (l : list (N * N)) : list (N * N) :=
-  if on then (if existsb (fun tv => N.eqb (fst tv) tag) l
-              then (fix go (l : list (N * N)) (done : bool) := match l with [] => [] | (t, v) :: r => if N.eqb t tag && negb done then (t, 1%N) :: go r true else (t, v) :: go r done end) l false
-              else l ++ [(tag, 1%N)])
-  else if suppress then (fix go (l : list (N * N)) (done : bool) := match l with [] => [] | (t, v) :: r => if N.eqb t tag && negb done then (t, 0%N) :: go r true else (t, v) :: go r done end) l false
+  if on then (if existsb (fun tv => N.eqb (fst tv) tag) l then set_first tag 1%N l false else l ++ [(tag, 1%N)])
+  else if suppress then set_first tag 0%N l false
   else l.
 Definition apply_run_props (f : rpr) (b i suppress : bool) : rpr :=
   if negb b && negb i && negb suppress then f
@@ -247,11 +250,11 @@ Definition delete_run (e : eng) (uid : nat) : eng * nat :=
 Definition place_after (e : eng) (uid : nat) (n : node) : eng := with_doc e (upd_doc (insert_after uid n) (e_doc e)).
 Definition place_before (e : eng) (uid : nat) (n : node) : eng := with_doc e (upd_doc (insert_before uid n) (e_doc e)).
 
-(* next w:r sibling of a run (same parent) *)
+(* next w:r sibling of a run (same parent) that has a w:t child *)
 Fixpoint next_sibling_run (uid : nat) (l : list node) : option (option node) :=     (* Some r = the run is a direct element; r = its next run sibling *)
   match l with
   | [] => None
-  | NRun u _ _ :: r => if Nat.eqb u uid then Some (find (fun n => match n with NRun _ _ _ => true | _ => false end) r) else next_sibling_run uid r
+  | NRun u _ _ :: r => if Nat.eqb u uid then Some (find (fun n => match n with NRun _ _ k => existsb (fun x => match x with CT _ => true | _ => false end) k | _ => false end) r) else next_sibling_run uid r
   | _ :: r => next_sibling_run uid r
   end.
 Fixpoint next_run_node (uid : nat) (n : node) : option (option node) :=
@@ -267,12 +270,20 @@ Definition next_run (uid : nat) (d : doc) : option node :=
 
 (* ---------- one edit, addressed by offset ---------- *)
 Inductive op := OpIns | OpDel | OpMod.
-Inductive outcome := Applied | Skipped | Outside.      (* Outside: the model does not cover this case (block insertion, nested insertion ...) *)
+(* Outside r: the model does not cover this case and says why (the batch result carries r + 1):
+   1 edit inside / overlapping a pending insertion, 2 block insertion (line break or heading in the new text),
+   3 the insertion anchor lies inside a tracked change, 4 the target runs are not direct children of one paragraph,
+   5 the target overlaps a pending insertion only partially (or several insertions) *)
+Inductive outcome := Applied | Skipped | Outside (r : nat).
 Definition ends_with_space (s : str) : bool := match rev s with c :: _ => N.eqb c 32%N | [] => false end.
 Fixpoint has_sub (needle s : str) : bool := prefixb needle s || match s with [] => false | _ :: s' => has_sub needle s' end.
 Definition has_md (s : str) : bool := has_sub [42%N; 42%N] s || existsb (N.eqb 95%N) s.
 Definition opt_nat_eqb (a b : option nat) : bool := match a, b with Some x, Some y => Nat.eqb x y | None, None => true | _, _ => false end.
 
+Definition opt_str_eqb (a b : option str) : bool := match a, b with Some x, Some y => str_eqb x y | None, None => true | _, _ => false end.
+(* all real spans of the range lie in one and the same pending insertion *)
+Definition same_ins (l : list ospan) : bool :=
+  match l with [] => false | x :: _ => forallb (fun y => opt_str_eqb (o_ins y) (o_ins x)) l && match o_ins x with Some (_ :: _) => true | _ => false end end.
 Definition is_some_nonempty (x : option str) : bool := match x with Some (_ :: _) => true | _ => false end.
 Definition same_para_direct (d : doc) (uids : list nat) : bool :=
   match uids with
@@ -281,8 +292,9 @@ Definition same_para_direct (d : doc) (uids : list nat) : bool :=
   end.
 
 (* engine with its maps: raw map (self.mapper, possibly stale exactly as in the code) and the accepted-view map *)
-Record est := { s_eng : eng; s_raw : list ospan; s_clean : option (list ospan) }.
-Definition set_eng (s : est) (e : eng) : est := {| s_eng := e; s_raw := s_raw s; s_clean := s_clean s |}.
+Record est := { s_eng : eng; s_raw : list ospan; s_clean : option (list ospan); s_cm0 : list comment (* comments at engine construction *);
+                s_cmc : list comment (* comments when the accepted-view mapper was constructed *) }.
+Definition set_eng (s : est) (e : eng) : est := {| s_eng := e; s_raw := s_raw s; s_clean := s_clean s; s_cm0 := s_cm0 s; s_cmc := s_cmc s |}.
 
 (* _apply_single_edit_indexed. use_clean: the offsets refer to the accepted-view map (active_mapper) *)
 Definition apply_indexed (s : est) (use_clean : bool) (start : nat) (target new comment : str) (o : option op) : est * outcome :=
@@ -291,8 +303,10 @@ Definition apply_indexed (s : est) (use_clean : bool) (start : nat) (target new 
   let o := match o with Some x => x | None => match target, new with [], _ :: _ => OpIns | _ :: _, [] => OpDel | _, _ => OpMod end end in
   let ln := length target in
   let ctx := if 0 <? ln then find (fun x => o_real x && (start <? o_end x) && (o_start x <? start + ln)) sp else None in
-  if match ctx with Some c => is_some_nonempty (o_ins c) | None => false end then (s, Outside)      (* edit inside a pending insertion *)
-  else if negb (inline_text new) then (s, Outside)
+  let inr := filter (fun x => o_real x && (start <? o_end x) && (o_start x <? start + ln)) sp in
+  if match ctx with Some c => is_some_nonempty (o_ins c) | None => false end
+  then (s, Outside (if same_ins inr then 0 else 4))      (* edit inside a pending insertion (wholly / partially) *)
+  else if negb (inline_text new) then (s, Outside 1)
   else match o with
   | OpIns =>
       let '(d1, a0) := insertion_anchor (e_doc e) sp start in
@@ -313,7 +327,7 @@ Definition apply_indexed (s : est) (use_clean : bool) (start : nat) (target new 
       match a with
       | None => (set_eng s (with_doc e d1), Skipped)
       | Some au =>
-        if negb (is_direct au d1) then (s, Outside)          (* D34: the anchor sits inside a tracked change *)
+        if negb (is_direct au d1) then (s, Outside 2)          (* D34: the anchor sits inside a tracked change *)
         else
           let e1 := with_doc e d1 in
           if before then
@@ -330,13 +344,13 @@ Definition apply_indexed (s : est) (use_clean : bool) (start : nat) (target new 
       end
   | _ =>
       let '(d1, work, modif) := resolve (e_doc e) sp start (start + ln) in
-      let s1 := if modif then (if use_clean then {| s_eng := with_doc e d1; s_raw := s_raw s; s_clean := Some (build_map true d1) |}
-                               else {| s_eng := with_doc e d1; s_raw := build_map false d1; s_clean := s_clean s |})
+      let s1 := if modif then (if use_clean then {| s_eng := with_doc e d1; s_raw := s_raw s; s_clean := Some (build_map true (s_cmc s) d1); s_cm0 := s_cm0 s; s_cmc := s_cmc s |}
+                               else {| s_eng := with_doc e d1; s_raw := build_map false (s_cm0 s) d1; s_clean := s_clean s; s_cm0 := s_cm0 s; s_cmc := s_cmc s |})
                 else set_eng s (with_doc e d1) in
       match work with
       | [] => (s1, Skipped)
       | w0 :: _ =>
-        if negb (same_para_direct d1 work) then (s, Outside)      (* cross-paragraph edit, or text inside another mark *)
+        if negb (same_para_direct d1 work) then (s, Outside 3)      (* cross-paragraph edit, or text inside another mark *)
         else
           let lastw := match last_opt work with Some x => x | None => w0 end in
           let last_rpr := run_rpr lastw d1 in
@@ -366,91 +380,100 @@ Definition find_match (text target : str) (orc : list fm) : fm * list fm :=
   | None => match orc with a :: r => (a, r) | [] => (None, []) end
   end.
 
+(* raw-view match, then the accepted-view fallback (the accepted-view map is built once and cached) *)
+Definition locate (s : est) (target : str) (orc : list fm) : fm * bool * est * list fm :=
+  let '(m1, orc1) := find_match (map_text (s_raw s)) target orc in
+  match m1 with
+  | Some x => (Some x, false, s, orc1)
+  | None =>
+    let cmc := match s_clean s with Some _ => s_cmc s | None => d_comments (e_doc (s_eng s)) end in
+    let cm := match s_clean s with Some c => c | None => build_map true cmc (e_doc (s_eng s)) end in
+    let s' := {| s_eng := s_eng s; s_raw := s_raw s; s_clean := Some cm; s_cm0 := s_cm0 s; s_cmc := cmc |} in
+    let '(m2, orc') := find_match (map_text cm) target orc1 in (m2, true, s', orc')
+  end.
+Definition apply_located (s1 : est) (use_clean : bool) (st ml : nat) (new comment : str) : est * outcome :=
+  let sp := if use_clean then match s_clean s1 with Some c => c | None => [] end else s_raw s1 in
+  let inrange := filter (fun x => o_real x && (st <? o_end x) && (o_start x <? st + ml)) sp in
+  if existsb (fun x => is_some_nonempty (o_del x)) inrange then (s1, Skipped)         (* D9 *)
+  else if existsb (fun x => is_some_nonempty (o_ins x)) inrange then (s1, Outside (if same_ins inrange then 0 else 4))     (* nested / partially overlapping insertion *)
+  else
+    let actual := sub (map_text sp) st ml in
+    if str_eqb actual new then (s1, Applied)
+    else if prefixb actual new then apply_indexed s1 use_clean (st + ml) [] (skipn (length actual) new) comment (Some OpIns)
+    else
+      let ps := trim_u actual new in
+      let ft := sub actual (fst ps) (length actual - snd ps - fst ps) in
+      let fn := sub new (fst ps) (length new - snd ps - fst ps) in
+      match ft, fn with
+      | [], [] => (s1, Applied)
+      | [], _ => apply_indexed s1 use_clean (st + fst ps) ft fn comment (Some OpIns)
+      | _, [] => apply_indexed s1 use_clean (st + fst ps) ft fn comment (Some OpDel)
+      | _, _ => apply_indexed s1 use_clean (st + fst ps) ft fn comment (Some OpMod)
+      end.
 Definition apply_heuristic (s : est) (target new comment : str) (orc : list fm) : est * outcome * list fm :=
   match target with
   | [] => (s, Skipped, orc)
   | _ =>
-    let '(m1, orc1) := find_match (map_text (s_raw s)) target orc in
-    let '(m, use_clean, s1, orc2) :=
-      match m1 with
-      | Some x => (Some x, false, s, orc1)
-      | None =>
-        let cm := match s_clean s with Some c => c | None => build_map true (e_doc (s_eng s)) end in
-        let s' := {| s_eng := s_eng s; s_raw := s_raw s; s_clean := Some cm |} in
-        let '(m2, orc') := find_match (map_text cm) target orc1 in (m2, true, s', orc')
-      end in
-    match m with
-    | None => (s1, Skipped, orc2)
-    | Some (st, ml) =>
-      let sp := if use_clean then match s_clean s1 with Some c => c | None => [] end else s_raw s1 in
-      let inrange := filter (fun x => o_real x && (st <? o_end x) && (o_start x <? st + ml)) sp in
-      if existsb (fun x => is_some_nonempty (o_del x)) inrange then (s1, Skipped, orc2)         (* D9 *)
-      else if existsb (fun x => is_some_nonempty (o_ins x)) inrange then (s1, Outside, orc2)     (* nested / partially overlapping insertion *)
-      else
-        let actual := sub (map_text sp) st ml in
-        if str_eqb actual new then (s1, Applied, orc2)
-        else if prefixb actual new then
-          let '(s2, oc) := apply_indexed s1 use_clean (st + ml) [] (skipn (length actual) new) comment (Some OpIns) in (s2, oc, orc2)
-        else
-          let '(p, su) := trim_u actual new in
-          let ft := sub actual p (length actual - su - p) in
-          let fn := sub new p (length new - su - p) in
-          match ft, fn with
-          | [], [] => (s1, Applied, orc2)
-          | [], _ => let '(s2, oc) := apply_indexed s1 use_clean (st + p) ft fn comment (Some OpIns) in (s2, oc, orc2)
-          | _, [] => let '(s2, oc) := apply_indexed s1 use_clean (st + p) ft fn comment (Some OpDel) in (s2, oc, orc2)
-          | _, _ => let '(s2, oc) := apply_indexed s1 use_clean (st + p) ft fn comment (Some OpMod) in (s2, oc, orc2)
-          end
+    match locate s target orc with
+    | (None, _, s1, orc2) => (s1, Skipped, orc2)
+    | (Some (st, ml), uc, s1, orc2) => let r := apply_located s1 uc st ml new comment in (fst r, snd r, orc2)
     end
   end.
 
 (* ---------- batches ---------- *)
 Record edit := { ed_target : str; ed_new : str; ed_comment : str; ed_index : option nat }.
 Definition overl (occ : list (nat * nat)) (a b : nat) : bool := existsb (fun r => (a <? snd r) && (fst r <? b)) occ.
-Definition rebuild (s : est) : est := {| s_eng := s_eng s; s_raw := build_map false (e_doc (s_eng s)); s_clean := None |}.
+Definition rebuild (s : est) : est := {| s_eng := s_eng s; s_raw := build_map false (s_cm0 s) (e_doc (s_eng s)); s_clean := None; s_cm0 := s_cm0 s; s_cmc := s_cmc s |}.
 (* result: state, applied, skipped, outside? *)
-Definition step_heur (acc : est * nat * nat * bool * list fm * list (nat * nat)) (ed : edit) :=
-  let '(s, ap, sk, out, orc, occ) := acc in
-  if out then acc else
-  let run_it (s : est) (orc : list fm) (rng : option (nat * nat)) :=
-    let '(s', oc, orc') := apply_heuristic s (ed_target ed) (ed_new ed) (ed_comment ed) orc in
-    match oc with
-    | Applied => (rebuild s', S ap, sk, false, orc', match rng with Some r => occ ++ [r] | None => occ end)
-    | Skipped => (s', ap, S sk, false, orc', occ)
-    | Outside => (s', ap, sk, true, orc', occ)
-    end in
-  match ed_target ed with
-  | [] => run_it s orc None
-  | _ =>
-    let '(m, orc1) := find_match (map_text (s_raw s)) (ed_target ed) orc in
-    match m with
-    | Some (st, ml) => if overl occ st (st + ml) then (s, ap, S sk, false, orc1, occ) else run_it s orc1 (Some (st, st + ml))
-    | None => run_it s orc1 None
+(* the match ranges are planned once, on the map as it stands before any heuristic edit *)
+Fixpoint plan (text : str) (es : list edit) (orc : list fm) : list (edit * option (nat * nat)) * list fm :=
+  match es with
+  | [] => ([], orc)
+  | ed :: r =>
+    match ed_target ed with
+    | [] => let '(l, o) := plan text r orc in ((ed, None) :: l, o)
+    | _ => let '(m, orc1) := find_match text (ed_target ed) orc in
+           let '(l, o) := plan text r orc1 in
+           ((ed, match m with Some (st, ml) => Some (st, st + ml) | None => None end) :: l, o)
     end
   end.
+Definition step_heur (acc : est * nat * nat * nat * list fm * list (nat * nat)) (edp : edit * option (nat * nat)) :=
+  let '(s, ap, sk, out, orc, occ) := acc in
+  let '(ed, rng) := edp in
+  if negb (Nat.eqb out 0) then acc else
+  if match rng with Some (a, b) => overl occ a b | None => false end then (s, ap, S sk, 0, orc, occ)
+  else
+    let '(s', oc, orc') := apply_heuristic s (ed_target ed) (ed_new ed) (ed_comment ed) orc in
+    match oc with
+    | Applied => (rebuild s', S ap, sk, 0, orc', match rng with Some r => occ ++ [r] | None => occ end)
+    | Skipped => (s', ap, S sk, 0, orc', occ)
+    | Outside r => (s', ap, sk, S r, orc', occ)
+    end.
 Definition sort_len_desc (l : list edit) : list edit := sort_by (fun a b => length (ed_target b) <? length (ed_target a)) l.
 Definition idx_of (e : edit) : nat := match ed_index e with Some i => i | None => 0 end.
 Definition sort_idx_desc (l : list edit) : list edit := sort_by (fun a b => idx_of b <? idx_of a) l.
-Definition step_idx (acc : est * nat * nat * bool * list (nat * nat)) (ed : edit) :=
+Definition step_idx (acc : est * nat * nat * nat * list (nat * nat)) (ed : edit) :=
   let '(s, ap, sk, out, occ) := acc in
-  if out then acc else
+  if negb (Nat.eqb out 0) then acc else
   let st := idx_of ed in let en := st + length (ed_target ed) in
-  if overl occ st en then (s, ap, S sk, false, occ)
+  if overl occ st en then (s, ap, S sk, 0, occ)
   else let '(s', oc) := apply_indexed s false st (ed_target ed) (ed_new ed) (ed_comment ed) None in
        match oc with
-       | Applied => (s', S ap, sk, false, occ ++ [(st, en)])
-       | Skipped => (s', ap, S sk, false, occ)
-       | Outside => (s', ap, sk, true, occ)
+       | Applied => (s', S ap, sk, 0, occ ++ [(st, en)])
+       | Skipped => (s', ap, S sk, 0, occ)
+       | Outside r => (s', ap, sk, S r, occ)
        end.
-Definition apply_edits (d : doc) (author ts : str) (edits : list edit) (orc : list fm) : doc * nat * nat * bool :=
+Definition apply_edits (d : doc) (author ts : str) (edits : list edit) (orc : list fm) : doc * nat * nat * nat :=
   let e := mk_engine d author ts in
-  let s0 := {| s_eng := e; s_raw := build_map false (e_doc e); s_clean := None |} in
+  let s0 := {| s_eng := e; s_raw := build_map false (d_comments (e_doc e)) (e_doc e); s_clean := None; s_cm0 := d_comments (e_doc e); s_cmc := [] |} in
   let indexed := filter (fun x => match ed_index x with Some _ => true | None => false end) edits in
   let heur := filter (fun x => match ed_index x with Some _ => false | None => true end) edits in
-  let '(s1, ap1, sk1, out1, occ1) := fold_left step_idx (sort_idx_desc indexed) (s0, 0, 0, false, []) in
+  let '(s1, ap1, sk1, out1, occ1) := fold_left step_idx (sort_idx_desc indexed) (s0, 0, 0, 0, []) in
   match heur with
   | [] => (e_doc (s_eng s1), ap1, sk1, out1)
   | _ =>
-    let '(s2, ap2, sk2, out2, _, _) := fold_left step_heur (sort_len_desc heur) (rebuild s1, ap1, sk1, out1, orc, occ1) in
+    let sr := rebuild s1 in
+    let '(planned, orc1) := plan (map_text (s_raw sr)) (sort_len_desc heur) orc in
+    let '(s2, ap2, sk2, out2, _, _) := fold_left step_heur planned (sr, ap1, sk1, out1, orc1, occ1) in
     (e_doc (s_eng s2), ap2, sk2, out2)
   end.
